@@ -168,6 +168,10 @@ def run(ctx):
         if impl[base + k] != e:
             ctx.fail("resolver-lines", "from_text_lines answers %s, the lines say %s" % (impl[base + k], e), [rcases[k]], [impl[base + k]], e)
 
+    # scalar level: extracted Serde.bin_scalar against the real on-demand path
+    from props import descalar
+    ctx.correspond("scalar-tokens", descalar.bin_cases(ctx, ctx.scale(150, 1500)), nontrivial=nt)
+
 
 def search(ctx):
     import random
